@@ -18,6 +18,7 @@ class ResourceSet:
         return None
 
     def iter_spec(self, E, st, obj):
+        st.ghost["walked_set"] = VInt(z3.IntVal(obj.ref))        # which set object the loop walks over (the live one or a snapshot)
         elems = st.get(obj, "elems")
         return st.get(obj, "n").e, (lambda j: VOpaque(z3.Select(elems, j)))
 
@@ -26,6 +27,17 @@ class ResourceSet:
         return [Res(st, NONE)]
 
     methods = {"clear": m_clear}
+
+
+_prev_list = R.specs.get("builtins.list")
+
+
+@R.spec("builtins.list", doc="list(<tracked resource set>): a snapshot (same members, its own object)")
+def list_of_resources(E, st, args, kw):
+    if args and isinstance(args[0], VObj) and args[0].cls == "resource_set":
+        src = args[0]
+        return [Res(st, st.new_obj("resource_set", n=st.get(src, "n"), elems=st.get(src, "elems")))]
+    return _prev_list(E, st, args, kw)
 
 
 @R.contract
@@ -46,6 +58,7 @@ class ConnClose(Contract):
         i, j = z3.Ints("i!r j!r")
         st.assume(n >= 0, z3.ForAll([i, j], z3.Implies(z3.And(0 <= i, i < j, j < n), elems[i] != elems[j])))
         st.set(conn, "tracked_resources", st.new_obj("resource_set", n=VInt(n), elems=elems))
+        self.conn = conn
         self.n, self.elems = n, elems
         self.closed0 = z3.Const("closed_count0", z3.ArraySort(U, IntS))
         st.ghost["closed"] = VOpaque(z3.Const("dummy", U))      # replaced below
@@ -58,7 +71,18 @@ class ConnClose(Contract):
         return None
 
     def after_user_call(self, E, st, target, args, kwargs, kind, res):
-        pass
+        # a resource's close() is user code: it may track / untrack resources on this very connection (e.g. untrack itself), i.e. change the
+        # live tracked set while close() is walking over it - the walk must therefore go over a snapshot
+        live = st.get(self.conn, "tracked_resources")
+        walked = st.ghost.get("walked_set")
+        if isinstance(live, VObj) and walked is not None:
+            E.oblige(st, "close() walks over a snapshot of the tracked resources: a resource's close() may track / untrack resources of this connection "
+                         "(walking the live set would end in RuntimeError 'Set changed size during iteration' and skip the rest)",
+                     z3.BoolVal(z3.simplify(walked.e).as_long() != live.ref), kind="pre")
+        if isinstance(live, VObj) and live.cls == "resource_set":
+            st.set(live, "n", VInt(fresh("tracked_n_after_user_close", IntS)))
+            st.set(live, "elems", fresh("tracked_elems_after_user_close", z3.ArraySort(IntS, U)))
+            st.assume(st.get(live, "n").e >= 0)
 
     def on_user_call(self, E, st, target, args, kwargs, kind):
         t = target.e
@@ -102,7 +126,8 @@ class ConnClose(Contract):
                     closed[z3.Const("u!inv", U)] == self.closed0[z3.Const("u!inv", U)])))]
 
     def loop_modifies(self, k, E, st, a):
-        return [("ghost", "closed")]
+        live = st.get(self.conn, "tracked_resources")
+        return [("ghost", "closed"), (live, "n"), (live, "elems")]
 
 
 class _Arr(V):
